@@ -168,6 +168,20 @@ FUNC_SYNONYM = {
 }
 
 
+#: keyword arguments that only spell a default out (by callee short name): dropping them does not change the call
+SPELLED_DEFAULTS = {
+    "choice": {"replace": ("True",), "p": ("None",), "axis": ("0",), "shuffle": ("True",)},
+    "argmax": {"axis": ("None",), "out": ("None",), "keepdims": ("False",)}, "argmin": {"axis": ("None",), "out": ("None",), "keepdims": ("False",)},
+    "integers": {"size": ("None",), "endpoint": ("False",), "dtype": ("np.int64", "numpy.int64", "int")},
+    "random": {"size": ("None",), "dtype": ("np.float64", "numpy.float64", "float"), "out": ("None",)},
+    "sum": {"axis": ("None",), "keepdims": ("False",)}, "mean": {"axis": ("None",), "keepdims": ("False",)},
+    "min": {"axis": ("None",), "keepdims": ("False",)}, "max": {"axis": ("None",), "keepdims": ("False",)},
+    "round": {"decimals": ("0",)}, "argsort": {"axis": ("-1",), "kind": ("None",)}, "sorted": {"reverse": ("False",), "key": ("None",)},
+    "searchsorted": {"sorter": ("None",)}, "clip": {"out": ("None",)}, "diff": {"n": ("1",), "axis": ("-1",)},
+    "concatenate": {"axis": ("0",)}, "vstack": {}, "hstack": {}, "unique": {"return_index": ("False",), "return_inverse": ("False",)},
+    "fabs": {}, "abs": {}, "log": {}, "exp": {},
+}
+
 #: positional parameter order of numpy / numpy.random.Generator calls that the repository spells both positionally and by keyword
 KNOWN_SIGNATURES = {
     "choice": ["a", "size", "replace", "p"], "integers": ["low", "high", "size"], "uniform": ["low", "high", "size"], "random": ["size"], "normal": ["loc", "scale", "size"],
@@ -362,6 +376,17 @@ class Normaliser:
                 name = f"{self.rat(fn.value)}.{fn.attr}"
         else:
             name = ast.unparse(fn)
+        # defaults spelled out: choice(x, size=1, replace=True) is choice(x, size=1); argmax(q, axis=None) is argmax(q); integers(low=0, high=n) is integers(n)
+        short_ = name.rsplit(".", 1)[-1] if isinstance(name, str) else ""
+        dflt = SPELLED_DEFAULTS.get(short_)
+        if dflt and kws:
+            kws = {k: v for k, v in kws.items() if not (k in dflt and ast.unparse(v) in dflt[k])}
+        if short_ == "integers" and not args and set(kws) <= {"low", "high"} and "low" in kws:
+            lo_, hi_ = kws.get("low"), kws.get("high")
+            if hi_ is None or ast.unparse(hi_) == "None":
+                args, kws = [lo_], {}
+            elif ast.unparse(lo_) == "0":
+                args, kws = [hi_], {}
         # the default dtype spelled out: np.ones(n, dtype=np.float64) is np.ones(n)
         if isinstance(name, str) and name in ("numpy.ones", "numpy.zeros", "numpy.empty", "numpy.full", "numpy.linspace") and "dtype" in kws \
                 and ast.unparse(kws["dtype"]) in ("np.float64", "numpy.float64", "float", "'float64'", "np.double", "'f8'"):
